@@ -352,3 +352,40 @@ def run(ctx):
     hio = ctx.fn('MqttClientImpl::handle_incoming_operation')
     rc = hio.calls('ProtocolState::reset')
     ctx.ob(len(rc) >= 1 and all(prims.guarded_any(hio, c.bb, [r' is Shutdown$']) for c in rc), 'the Shutdown arm of the client resets the engine', 'shutdown-reset', loc=hio.loc())
+    sh_edges = prims.edge_nodes_matching(hio, [r' is Shutdown$'])
+    oku = bool(sh_edges) and bool(rc)
+    for en_ in sh_edges:
+        seen_ = hio.reach([en_], avoid=[c.bb for c in rc])
+        oku = oku and not any(x in seen_ for x in hio.exits())
+    ctx.ob(oku, 'the Shutdown arm resets the engine unconditionally: every path through it fails all still-unresolved operations (whatever the client state)', 'shutdown-reset|unconditional', loc=hio.loc())
+
+    # ---- added after the mutation sweep
+    ph = ctx.fn('ProtocolState::partition_high_priority_queue_for_disconnect')
+    cl_ = [c for _, c in F.callees_of(ph) if c.f.get('parent') and norm(c.f['parent']) == norm(ph.path)]
+    okt = len(cl_) == 1
+    if okt:
+        c_ = cl_[0]
+        pushes_ = [m for m in prims.mutations(c_) if m.kind == 'mutcall' and m.method in ('push_back', 'push_front')]
+        tg = sorted(show(m.path) for m in pushes_)
+        okt = tg == ['rejected', 'retained'] and all(show(m.cs.arg(1)) == 'id' for m in pushes_)
+        if okt:
+            seen_ = c_.reach([0], avoid=[m.bb for m in pushes_])
+            okt = not any(e in seen_ for e in c_.exits())
+            r_ = [m for m in pushes_ if show(m.path) == 'retained'][0]
+            okt = okt and prims.guarded_any(c_, r_.bb, [r'^ProtocolState::should_retain_high_priority_operation\(.*\)$'])
+    ctx.ob(okt, 'the high-priority partition is total: every id goes into exactly one of retained / rejected (so every rejected operation is failed)', 'partition-total|high-priority', loc=ph.loc(), rule='R-C01-6')
+    pq = ctx.fn('protocol::partition_operations_by_queue_policy')
+    pcl = [c for _, c in F.callees_of(pq) if c.f.get('parent') and norm(c.f['parent']) == norm(pq.path)]
+    okq = len(pcl) == 1
+    if okq:
+        c_ = pcl[0]
+        pushes_ = [m for m in prims.mutations(c_) if m.kind == 'mutcall' and m.method in ('push_back', 'push_front')]
+        seen_ = c_.reach([0], avoid=[m.bb for m in pushes_])
+        ret_ = [show(e) for b, e in prims.ret_variants(pq)]
+        names_ = sorted(show(m.path) for m in pushes_)
+        okq = len(names_) == 2 and names_[0] != names_[1] and not any(e in seen_ for e in c_.exits()) and \
+            any(prims.guarded_any(c_, m.bb, [r'^protocol::does_packet_pass_offline_queue_policy\(.*\)$']) and re.search(r'^\(tuple\)\{0: %s, 1: \w+\}$' % re.escape(show(m.path)), ret_[0] if ret_ else '') for m in pushes_)
+    ctx.ob(okq, 'the offline-policy partition is total: every id goes into exactly one half, and the half returned first is the one the policy passes', 'partition-total|policy', loc=pq.loc(), rule='R-C01-6')
+    fwv = ctx.fn('ProtocolState::on_current_operation_fully_written')
+    eff_ = prims.must_field_effects(F, fwv)
+    ctx.ob('Option::None{}' in eff_.get('current_operation', set()), 'a fully written operation always vacates the current-operation slot (otherwise the service loop would process it again)', 'fully-written|vacates', loc=fwv.loc(), rule='R-C01-5')
